@@ -98,6 +98,9 @@ def run(ctx):
     # ------------------------------------------------------------------ R06.13 (generic, scoped to this property's anchors)
     sm.rule_named_plumbing(ctx, mir, "C06", "R06.13", floor=57)
 
+    # ------------------------------------------------------------------ R06.14
+    rule_every_tag_reaches_simulator(ctx, mir)
+
     ctx.not_decided += ["equality of event logs under handler sets H and H ∪ O as such (relation between two runs)"]
     return ("Rules on the hand-over between the tag scanner and the lexer: type-driven bookmark completeness, reset of sticky per-tag scratch on "
             "every continuing exit of finish_tag_name (CFG dominance), the stale-hint-flag protocol and once-per-tag tree-builder feedback.")
@@ -258,4 +261,30 @@ def rule_hint_flag(ctx, mir, rid="R06.3"):
         true_t = ht.blocks[sw[0]]["term"]["else"]
         if not ht.dominates(true_t, wr[0]) or not ht.dominates(false_t, adj[0]):
             r.violate("handle_tag|consume", "handle_tag must clear the flag when it is set and run selector matching (adjust_capture_flags_for_tag_lexeme) when it is not", ht.loc())
+
+
+def rule_every_tag_reaches_simulator(ctx, mir, rid="R06.14"):
+    """both parsers report every tag to the tree-builder simulator (it tracks namespaces and, in strict mode, the ambiguity guard)"""
+    import re as _re
+    from ..mirlib import guarding_branches as _gb
+    r = ctx.rule(rid, "every tag reaches the tree-builder simulator in both parsing modes: the calls of get_feedback_for_start_tag / get_feedback_for_end_tag in the lexer and in the tag scanner depend only on the kind of tag (and, in the lexer, on feedback already obtained by the tag scanner) - not on namespace depth, handlers or any other state", "E-MIR control dependence", floor=4)
+    allowed = {"is_in_end_tag", "token", "feedback_directive"}
+    sites = {}
+    for f in mir.fns:
+        if mir.is_test_fn(f):
+            continue
+        for bi, t in f.calls(r"TreeBuilderSimulator::get_feedback_for_(start|end)_tag$"):
+            which = t["callee"].split("::")[-1]
+            gs = [f.deep(f.blocks[sb]["term"]["d"]) for sb in _gb(f, bi)]
+            key = f.key + "|" + which
+            sites.setdefault(f.key, set()).add(which)
+            r.inst(key, sample={"guards": gs})
+            for g in gs:
+                ids = set(_re.findall(r"(?<![A-Za-z0-9_:])[a-z_][a-z0-9_]*", g)) - {"discr", "self", "take", "copy", "move", "const"}
+                if not ids <= allowed:
+                    r.violate(key, f"{f.key} asks the simulator for {which} only when `{g[:120]}` holds: tags for which it does not hold are invisible to the simulator in this mode (namespace tracking / strict-mode ambiguity tracking then differs between lexer and tag scanner)", f.loc())
+    want = {"Lexer::try_get_tree_builder_feedback", "TagScanner::try_apply_tree_builder_feedback"}
+    r.inst("callers", sample={"callers": sorted(sites)})
+    if len(sites) != 2 or any(v != {"get_feedback_for_start_tag", "get_feedback_for_end_tag"} for v in sites.values()):
+        r.violate("callers", f"the simulator is consulted by {dict((k, sorted(v)) for k, v in sites.items())}; expected exactly one function in the lexer and one in the tag scanner, each reporting both start and end tags", "src/parser/tree_builder_simulator/mod.rs")
 
